@@ -39,6 +39,11 @@ def D(s):
     return {'t': 'date', 's': int(s), 'fn': 0, 'fd': 1}
 
 
+def date_num(a):
+    """a date argument (a date, or its serial number possibly with a time of day) as a Fraction of days"""
+    return Fraction(a['s']) if a['t'] == 'date' else Fraction(a['n'], a['d'])
+
+
 def col(xs):
     return {'t': 'arr', 'v': [[x] for x in xs]}
 
@@ -107,7 +112,7 @@ def reference(f, args):
     if f == 'XNPV':
         r = fr_of(args[0])
         cs = [fr_of(a) for a in flat(args[1])]
-        ds = [a['s'] for a in flat(args[2])]
+        ds = [date_num(a) for a in flat(args[2])]
         v, k = disc_sum(r, cs, xnpv_exps(ds))
         return v, k, 'sum v_i/(1+r)^((d_i-d_1)/365)'
     if f == 'SLN':
@@ -171,7 +176,7 @@ def check_reference(case, exp):
     e = Fraction(exp['n'], exp['d'])
     if f in ('IRR', 'XIRR'):
         cs = [fr_of(a) for a in flat(args[0])]
-        es = [Fraction(i) for i in range(len(cs))] if f == 'IRR' else xnpv_exps([a['s'] for a in flat(args[1])])
+        es = [Fraction(i) for i in range(len(cs))] if f == 'IRR' else xnpv_exps([date_num(a) for a in flat(args[1])])
         v, k = disc_sum(e, cs, es)
         return (v == 0) if k == 'fraction' else None
     v, k, _ = reference(f, args)
@@ -319,8 +324,20 @@ def flows_any(rng, n, big):
     return [Fraction(rng.choice([-100, -10, 0, 10, 60, 100, 25, -40])) for _ in range(n)]
 
 
+def spell_dates(rng, ds):
+    """dates as dates, as whole serial numbers, or as serial numbers with a time of day"""
+    u = rng.random()
+    if min(ds) < 61:
+        u = 0.6 + 0.4 * u        # no calendar date for serial 60 and below 1: numbers only
+    if u < 0.6:
+        return [D(s) for s in ds]
+    if u < 0.8:
+        return [N(Fraction(s)) for s in ds]
+    return [N(Fraction(s) + Fraction(rng.randint(0, 3), 4)) for s in ds]
+
+
 def dates_inc(rng, n, yearly=False):
-    s = rng.randint(36526, 45000)
+    s = rng.randint(36526, 45000) if rng.random() < 0.9 else rng.randint(40, 70)        # also around the 1900 leap-day gap
     out = [s]
     for _ in range(n - 1):
         s += 365 * rng.randint(1, 2) if yearly else rng.choice([1, 7, 30, 31, 90, 182, 365, 366, rng.randint(1, 400)])
@@ -396,7 +413,7 @@ def driver(seed, count):
             n = rng.randint(1, 4) if small else rng.choice([5, 12, 30, rng.randint(1, 30)])
             ds = dates_inc(rng, n, yearly=small and rng.random() < 0.7)
             shape = row if rng.random() < 0.2 and n <= 20 else col
-            args = [N(rate), shape([N(c) for c in flows_any(rng, n, not small)]), shape([D(s) for s in ds])]
+            args = [N(rate), shape([N(c) for c in flows_any(rng, n, not small)]), shape(spell_dates(rng, ds))]
         elif f == 'IRR':
             n = rng.randint(2, 5) if small else rng.choice([3, 6, 12, 20, 30, rng.randint(2, 30)])
             if rng.random() < 0.85:
@@ -413,6 +430,8 @@ def driver(seed, count):
         else:
             n = rng.randint(2, 4) if small else rng.choice([3, 6, 12, 20, 30, rng.randint(2, 30)])
             ds = dates_inc(rng, n, yearly=small)
+            dargs = spell_dates(rng, ds)
+            ds = [date_num(a) for a in dargs]
             if rng.random() < 0.85:
                 cs, r = root_case(rng, small, n, xnpv_exps(ds))
                 if cs is None:
@@ -422,7 +441,7 @@ def driver(seed, count):
                 cs = [-cents(rng, 1, 100000)] + [cents(rng, 0, 60000) for _ in range(n - 1)]
                 if not in_domain_root(cs):
                     continue
-            args = [col([N(c) for c in cs]), col([D(s) for s in ds])]
+            args = [col([N(c) for c in cs]), col(dargs)]
         path = ('formula', 'wrapped', 'direct', 'mix', 'formula', 'mix')[i % 6]
         if path == 'mix':
             path = rng.choice(MIXES + (SLN_MIXES if f == 'SLN' else ())) if f in SCALAR_FUNCS else rng.choice(['wrapped', 'direct'])
@@ -436,7 +455,7 @@ def driver(seed, count):
 def sign_at(f, args, r):
     """sign of NPV (IRR) / XNPV (XIRR) of the flows at rate r (a Fraction), and the arithmetic used"""
     cs = [fr_of(a) for a in flat(args[0])]
-    es = [Fraction(i) for i in range(len(cs))] if f == 'IRR' else xnpv_exps([a['s'] for a in flat(args[1])])
+    es = [Fraction(i) for i in range(len(cs))] if f == 'IRR' else xnpv_exps([date_num(a) for a in flat(args[1])])
     if r <= -1:
         return 1, 'fraction'        # NPV -> +inf as r -> -1 for flows ending in returns
     v, kind = disc_sum(r, cs, es)
